@@ -4,17 +4,22 @@
     the members' sigma^2, [team j] the j-th team, [n] the number of teams, [N] the total
     number of players, [filter (fun j => negb (j =? i)) (seq 0 n)] the opponents of team [i].
     All theorems hold for every [Phi], [Phiinv]; the ones that take the premise
-    [GaussFacts Phi Phiinv] (the [_noabs] forms and [C12_draw2]) use only [gf_range],
-    [gf_mono], [gf_sym], [gf_inv].
+    [GaussCDF Phi Phiinv] (the [_noabs] forms and [C12_draw2]) use only [gc_range],
+    [gc_mono], [gc_sym], [gc_inv].
 
-    Non-vacuity: [GaussFacts] cannot be instantiated here (no formalised Gaussian integral
-    is installed), so the theorems with that premise have no closed Example; the others
-    are instantiated on concrete teams below.
+    Non-vacuity: the premise [GaussCDF Phi Phiinv] IS instantiated, without any hypothesis,
+    by [GaussInst.GaussCDF_inst : GaussCDF GaussInst.PhiK GaussInst.PhiinvK], where
+    [GaussInst.PhiK x = 1/2 + (int_0^x exp(-t^2/2) dt) / (2 I)] is the standard normal
+    distribution function (the only fact about it that is not proved is the numeric value of
+    its normalising constant, 2 * I = sqrt (2 * pi), which these theorems do not need); the
+    theorems with that premise have premise-free corollaries [<name>_inst] at the end of the
+    file, the others are instantiated on concrete teams below.
 
     The "to within 1e-9 absolute" clause is a statement about binary64 rounding and is not
     a theorem over R; it is covered by the monitors (see DESIGN.md §7, C12). *)
 From Coq Require Import List Arith Reals Lra.
 From OSV Require Import Num Core Predict RInst.
+From OSV Require GaussInst.
 From OSV.Lemmas Require C12L.
 Import ListNotations.
 Open Scope R_scope.
@@ -114,7 +119,7 @@ Proof.
 Qed.
 
 (** ... and the [abs] is redundant (the value is a sum of probabilities over a positive number). *)
-Theorem C12_rank_noabs : forall (Phi Phiinv : R -> R), GaussFacts Phi Phiinv ->
+Theorem C12_rank_noabs : forall (Phi Phiinv : R -> R), GaussCDF Phi Phiinv ->
   forall (beta : R) (teams : list (list (rating R))) (i : nat),
   0 < beta -> (2 <= length teams)%nat -> Forall (fun t => t <> []) teams -> (i < length teams)%nat ->
   let Tmu := fun t : list (rating R) => Rsum (map r_mu t) in
@@ -161,7 +166,7 @@ Proof.
 Qed.
 
 (** ... and there too the [abs] is redundant. *)
-Theorem C12_draw_noabs : forall (Phi Phiinv : R -> R), GaussFacts Phi Phiinv ->
+Theorem C12_draw_noabs : forall (Phi Phiinv : R -> R), GaussCDF Phi Phiinv ->
   forall (beta : R) (teams : list (list (rating R))),
   0 < beta -> (3 <= length teams)%nat -> Forall (fun t => t <> []) teams ->
   let Tmu := fun t : list (rating R) => Rsum (map r_mu t) in
@@ -182,7 +187,7 @@ Print Assumptions C12_draw_noabs.
 
 (** [predict_draw], two teams: the plain sum of the two ordered pairs (the scale uses n = 2,
     the margin uses the total number of players N). *)
-Theorem C12_draw2 : forall (Phi Phiinv : R -> R), GaussFacts Phi Phiinv ->
+Theorem C12_draw2 : forall (Phi Phiinv : R -> R), GaussCDF Phi Phiinv ->
   forall (beta : R) (ta tb : list (rating R)),
   0 < beta -> ta <> [] -> tb <> [] ->
   let Tmu := fun t : list (rating R) => Rsum (map r_mu t) in
@@ -215,3 +220,57 @@ Print Assumptions C12_draw2_abs.
 Example C12_draw2_abs_ex : forall Phi Phiinv : R -> R,
   exists v, predict_draw (H := RNum Phi Phiinv) 4 [[mkRating 25 8 0%Z NmNone]; [mkRating 30 7 1%Z NmNone]] = Rabs v.
 Proof. intros. eexists. apply (C12_draw2_abs Phi Phiinv 4); [lra | discriminate | discriminate]. Qed.
+
+(** ** Hypothesis-free corollaries: the premise [GaussCDF Phi Phiinv] discharged by the concrete
+    standard normal distribution function [GaussInst.PhiK] and its inverse [GaussInst.PhiinvK]
+    ([GaussInst.GaussCDF_inst]). *)
+Theorem C12_rank_noabs_inst :
+  forall (beta : R) (teams : list (list (rating R))) (i : nat),
+  0 < beta -> (2 <= length teams)%nat -> Forall (fun t => t <> []) teams -> (i < length teams)%nat ->
+  let Tmu := fun t : list (rating R) => Rsum (map r_mu t) in
+  let Tvar := fun t : list (rating R) => Rsum (map (fun p => r_sigma p * r_sigma p) t) in
+  let n := length teams in
+  let N := INR (length (concat teams)) in
+  let margin := sqrt N * beta * GaussInst.PhiinvK ((1 + 1 / N) / 2) in
+  let team := fun j => nth j teams [] in
+  nth i (map snd (predict_rank (H := RNum GaussInst.PhiK GaussInst.PhiinvK) beta teams)) 0
+  = Rsum (map (fun j => GaussInst.PhiK ((Tmu (team i) - Tmu (team j) - margin)
+                             / sqrt (INR n * (beta * beta) + Tvar (team i) + Tvar (team j))))
+              (filter (fun j => negb (Nat.eqb j i)) (seq 0 n)))
+    / (INR n * (INR n - 1) / 2).
+Proof. exact (C12_rank_noabs GaussInst.PhiK GaussInst.PhiinvK GaussInst.GaussCDF_inst). Qed.
+Print Assumptions C12_rank_noabs_inst.
+
+Theorem C12_draw_noabs_inst :
+  forall (beta : R) (teams : list (list (rating R))),
+  0 < beta -> (3 <= length teams)%nat -> Forall (fun t => t <> []) teams ->
+  let Tmu := fun t : list (rating R) => Rsum (map r_mu t) in
+  let Tvar := fun t : list (rating R) => Rsum (map (fun p => r_sigma p * r_sigma p) t) in
+  let n := length teams in
+  let N := INR (length (concat teams)) in
+  let margin := sqrt N * beta * GaussInst.PhiinvK ((1 + 1 / N) / 2) in
+  let team := fun j => nth j teams [] in
+  let d := fun i j => Tmu (team i) - Tmu (team j) in
+  let s := fun i j => sqrt (INR n * (beta * beta) + Tvar (team i) + Tvar (team j)) in
+  predict_draw (H := RNum GaussInst.PhiK GaussInst.PhiinvK) beta teams
+  = Rsum (map (fun i => Rsum (map (fun j => GaussInst.PhiK ((margin - d i j) / s i j) - GaussInst.PhiK ((d i j - margin) / s i j))
+                                  (filter (fun j => negb (Nat.eqb j i)) (seq 0 n))))
+              (seq 0 n))
+    / (INR n * (INR n - 1)).
+Proof. exact (C12_draw_noabs GaussInst.PhiK GaussInst.PhiinvK GaussInst.GaussCDF_inst). Qed.
+Print Assumptions C12_draw_noabs_inst.
+
+Theorem C12_draw2_inst :
+  forall (beta : R) (ta tb : list (rating R)),
+  0 < beta -> ta <> [] -> tb <> [] ->
+  let Tmu := fun t : list (rating R) => Rsum (map r_mu t) in
+  let Tvar := fun t : list (rating R) => Rsum (map (fun p => r_sigma p * r_sigma p) t) in
+  let N := INR (length ta + length tb) in
+  let margin := sqrt N * beta * GaussInst.PhiinvK ((1 + 1 / N) / 2) in
+  let d := Tmu ta - Tmu tb in
+  let s := sqrt (2 * (beta * beta) + Tvar ta + Tvar tb) in
+  predict_draw (H := RNum GaussInst.PhiK GaussInst.PhiinvK) beta [ta; tb]
+  = (GaussInst.PhiK ((margin - d) / s) - GaussInst.PhiK ((d - margin) / s))
+    + (GaussInst.PhiK ((margin - - d) / s) - GaussInst.PhiK ((- d - margin) / s)).
+Proof. exact (C12_draw2 GaussInst.PhiK GaussInst.PhiinvK GaussInst.GaussCDF_inst). Qed.
+Print Assumptions C12_draw2_inst.
